@@ -164,6 +164,7 @@ fn n_c19_lookup(entry: usize) -> (fn(&[u8]) -> bool, fn(&[u8]) -> bool) {{
     }}
 }}
 ''')
+    gen.append(open(os.path.join(os.path.dirname(os.path.abspath(__file__)), '..', 'harness', 'spec_c19_native.rs.inc')).read())
     hs.append(Harness('n_c19_validator', 'spec', 'spec_lib.rs', '', functions=[], bound='', claim='', role='native'))
     # pairing harness
     body = []
